@@ -810,12 +810,23 @@ class Sym:
         fall = None
         impure = None
         outer = {k: v for k, v in st.env.items() if isinstance(k, tuple) and k[0] == 'v' and k[1] != s['var']['id']}
+        filled = []
         try:
             for s2, sig in self.exec(s['b'], st.fork()):
                 if s2.throw is not None or (isinstance(sig, tuple) and sig[0] == 'return'):
                     out.append((s2, sig))
                 else:
                     if len(s2.effects) != neff:
+                        if (extent is None or extent > 64) and all(self.local_container_effect(e_, pristine) for e_ in s2.effects[neff:]):
+                            # the body only grows containers that are locals of this evaluation (collecting the elements into a vector
+                            # of its own): nothing outside the call changes; the local now holds some elements of the range
+                            for e_ in s2.effects[neff:]:
+                                for key_, val_ in list(s2.env.items()):
+                                    if val_ == e_[2]:
+                                        s2.env[key_] = ('filled', e_[2], r)
+                            del s2.effects[neff:]
+                            filled.append(s2)
+                            continue
                         raise Unsupported(f'loop body with effects at line {s.get("ln")}')
                     if any(s2.env.get(k) != v for k, v in outer.items()) or sig in ('break', 'continue'):
                         raise Unsupported(f'loop body that updates a variable of the enclosing scope at line {s.get("ln")}')
@@ -861,6 +872,9 @@ class Sym:
                 if len(states) > self.max_paths:
                     raise Unsupported('too many paths')
             return [(s1, None if sig == 'loop-exit' else sig) for s1, sig in states]
+        if filled and impure is None and consts is None:
+            # (whether the range was empty or not makes no difference outside the call: no condition is recorded)
+            return out + [(s_, None) for s_ in filled]
         if fall is not None or not out:
             st.conds.append((('noelem', r, s.get('ln')), True))
             out.append((st, None))
@@ -1712,6 +1726,18 @@ class Sym:
                 if t in self.F.rec:
                     return t
         return None
+
+    @staticmethod
+    def local_container_effect(e, st):
+        """the effect is a growth / change of a standard container that is a local object of the evaluation (its value is the
+        constructor call that made it: nothing else designates it)"""
+        if not (isinstance(e, tuple) and len(e) >= 3 and e[0] == 'call' and isinstance(e[1], str) and e[1].startswith('std::')):
+            return False
+        recv = e[2]
+        while isinstance(recv, tuple) and recv and recv[0] == 'filled':
+            recv = recv[1]
+        return isinstance(recv, tuple) and len(recv) == 4 and recv[0] == 'call' and recv[2] is None and isinstance(recv[1], str) \
+            and recv[1].startswith(('std::vector<', 'std::deque<', 'std::list<', 'std::forward_list<', 'std::basic_string<')) and '::' + recv[1].split('<')[0].split('::')[-1] + '(' in recv[1].replace(' ', '')
 
     def const_table_rows(self, q, extent, st):
         """values of the rows of a constant-initialised const array of pointers / scalars / enumerations, or None"""
